@@ -717,6 +717,11 @@ func VisitWithTypeInfo(ttypeInfo typeInfo.TypeInfoI, visitorOpts *VisitorOptions
 				fn := GetVisitFn(visitorOpts, node.GetKind(), false)
 				if fn != nil {
 					action, result := fn(p)
+					if action == ActionSkip {
+						// the subtree is not entered and Leave is not called for a
+						// skipped node: close its scope here
+						ttypeInfo.Leave(node)
+					}
 					if action == ActionUpdate {
 						ttypeInfo.Leave(node)
 						if isNode(result) {
